@@ -166,16 +166,18 @@ impl Engine for E6 {
         &["two_racing_setters", "get_during_loading", "get_none_then_some", "hb_acquire_join", "loser_returned_before_winner_completed"]
     }
 
-    fn generate(rng: &mut Rng, _focus: &str, _tier: Tier) -> HCase {
+    fn generate(rng: &mut Rng, _focus: &str, tier: Tier) -> HCase {
+        // thorough tier: half of the cases have up to six tasks and programs twice as long
+        let deep = tier == Tier::Thorough && rng.split(9).chance(1, 2);
         let mut cfg = rng.split(1);
         let mut prog = rng.split(2);
         let mut sch = rng.split(4);
-        let n_tasks = 2 + cfg.usize_below(3);
+        let n_tasks = 2 + cfg.usize_below(if deep { 5 } else { 3 });
         let mut next_id = 0u32;
         let setters = 1 + cfg.usize_below(n_tasks.min(3));
         let mut tasks = Vec::new();
         for t in 0..n_tasks {
-            let n = 1 + prog.usize_below(5);
+            let n = 1 + prog.usize_below(if deep { 10 } else { 5 });
             let mut ops = Vec::new();
             let mut did_set = false;
             for _ in 0..n {
